@@ -878,6 +878,8 @@ pub fn kinds() -> Vec<CmdKind> {
 	static_kind!("static.resume", [0u8, 1, 1], |d: kira::sound::static_sound::StaticSoundData, _v: u8| d, |h: &mut kira::sound::static_sound::StaticSoundHandle, v: u8| if v == 9 { h.pause(instant()) } else { h.resume(instant()) }, false, true);
 	static_kind!("static.stop", [0u8, 1, 1], |d: kira::sound::static_sound::StaticSoundData, _v: u8| d, |h: &mut kira::sound::static_sound::StaticSoundHandle, v: u8| if v == 1 { h.stop(instant()) }, false, true);
 	static_kind!("static.seek_to", [0.0f64, 6.0 / 8000.0, 11.0 / 8000.0], |d: kira::sound::static_sound::StaticSoundData, _v: f64| d, |h: &mut kira::sound::static_sound::StaticSoundHandle, v: f64| h.seek_to(v), false, false);
+	// the superseding command has the "neutral" argument: it still replaces the one before it
+	static_kind!("static.seek_by (then seek_by(0))", [9.0f64 / 8000.0, 0.0, 4.0 / 8000.0], |d: kira::sound::static_sound::StaticSoundData, _v: f64| d, |h: &mut kira::sound::static_sound::StaticSoundHandle, v: f64| h.seek_by(v), false, false);
 	static_kind!("static.seek_by", [0.0f64, 4.0 / 8000.0, 9.0 / 8000.0], |d: kira::sound::static_sound::StaticSoundData, _v: f64| d, |h: &mut kira::sound::static_sound::StaticSoundHandle, v: f64| h.seek_by(v), false, false);
 	// ---- streaming sound handle (decoder paced ahead)
 	macro_rules! stream_kind {
@@ -1748,7 +1750,79 @@ fn cross_kind(ctx: &mut Ctx) {
 			ctx.nontrivial(hash64(&("loop then seek", new_lp, seek_by, gap)));
 		}
 	}
-	ctx.traces += 26 + 36 + 6;
+	// 12. a setter issued while the sound itself is not audible (paused, waiting for a delayed start): it takes effect at the next
+	//     callback all the same - when the sound is heard again the tween has long ended
+	for kind in 0..2 {
+		for state in 0..2 {
+			ctx.evals += 1;
+			let mut m = rig::manager(8, 1, rig::caps(2), MainTrackBuilder::new());
+			let first = pacer::count();
+			let mut dec_stats = None;
+			let mut h: Box<dyn crate::probes::SoundHandle> = if kind == 0 {
+				let d = dc_loop(8, 0.5);
+				let d = if state == 1 { d.start_time(StartTime::Delayed(Duration::from_secs(1))) } else { d };
+				Box::new(m.play(d).unwrap())
+			} else {
+				pacer::set_mode(pacer::Mode::Pacer);
+				let (dec, st) = ScriptedDecoder::new(rig::dc_frames(4096, 0.5), 8, vec![3, 1, 2], 1);
+				dec_stats = Some(st);
+				let d = StreamingSoundData::from_decoder(dec);
+				let d = if state == 1 { d.start_time(StartTime::Delayed(Duration::from_secs(1))) } else { d };
+				Box::new(m.play(d).map_err(|_| ()).unwrap())
+			};
+			let mut cb = |m: &mut rig::Manager, buf: &mut [f32; 2]| {
+				if kind == 1 {
+					pacer::step_all_from(first, 4);
+				}
+				rig::callback(m, buf, 1, 2);
+			};
+			cb(&mut m, &mut buf);
+			if state == 0 {
+				h.pause(instant());
+				cb(&mut m, &mut buf);
+			}
+			// -20 dB over 2 frames, then 6 silent callbacks (paused / still waiting for its start time)
+			h.set_volume(kira::Value::Fixed(Decibels(-20.0)), Tween { start_time: StartTime::Immediate, duration: Duration::from_millis(250), easing: Easing::Linear });
+			let mut heard_meanwhile = false;
+			for _ in 0..6 {
+				cb(&mut m, &mut buf);
+				heard_meanwhile |= buf[0] != 0.0;
+			}
+			if state == 0 {
+				h.resume(instant());
+			}
+			let mut heard = vec![];
+			for _ in 0..6 {
+				cb(&mut m, &mut buf);
+				heard.push(buf[0]);
+			}
+			let want = 0.5 * 0.1f32;
+			let audible: Vec<f32> = heard.iter().copied().filter(|v| *v != 0.0).collect();
+			// (a resume with an instant fade may take one more callback to be heard; a streaming sound starts a few frames in)
+			if heard_meanwhile || audible.len() < 2 || audible.iter().any(|v| (*v - want).abs() > 1e-6) {
+				ctx.fail(
+					"a setter issued while the sound is paused / waiting for its start time is applied late (the tween only runs once the sound is audible) :: cross-kind",
+					format!(
+						"{} DC sound 0.5, {}; set_volume(-20 dB, 250 ms tween = 2 frames at 8 Hz); 6 callbacks of 1 frame; {}; the next 6 callbacks: {:?}, expected {} whenever audible (heard in between: {})",
+						["static", "streaming"][kind],
+						["paused (instant fade)", "start time Delayed(1 s), 1 callback played so far"][state],
+						["resume(instant)", "its start time arrives"][state],
+						heard,
+						want,
+						heard_meanwhile
+					),
+				);
+			}
+			ctx.nontrivial(hash64(&("setter while not audible", kind, state)));
+			if let Some(st) = dec_stats {
+				h.stop(instant());
+				rig::callback(&mut m, &mut buf, 1, 2);
+				drop(m);
+				crate::probes::reap_decoder(first, &st);
+			}
+		}
+	}
+	ctx.traces += 26 + 36 + 6 + 4;
 	ctx.transitions += 20 + 12 * 7 + 26 + 36 + 100 + 36 * 6 + 6 * 6;
 	ctx.state(hash64(&"cross"));
 	ctx.outcome(hash64(&"cross"));
